@@ -987,7 +987,7 @@ func (p *partition) handleLeaderOffsetRequest(msg *nats.Msg) {
 		return
 	}
 	resp, err := proto.MarshalLeaderEpochOffsetResponse(&proto.LeaderEpochOffsetResponse{
-		EndOffset: p.log.LastOffsetForLeaderEpoch(req.LeaderEpoch),
+		EndOffset: p.lastOffsetForLeaderEpoch(req.LeaderEpoch),
 	})
 	if verifhook.Enabled {
 		verifhook.Point("partition.offsetResp", p.srv.config.Clustering.ServerID, p.Stream, p.Id, // nolint: errcheck
@@ -999,6 +999,41 @@ func (p *partition) handleLeaderOffsetRequest(msg *nats.Msg) {
 	if err := msg.Respond(resp); err != nil {
 		p.srv.logger.Errorf("Failed to respond to leader offset request: %v", err)
 	}
+}
+
+// lastOffsetForLeaderEpoch returns the offset of the last message in this
+// leader's log that belongs to the given leader epoch or an earlier one. The
+// follower keeps everything up to and including this offset and truncates the
+// rest.
+//
+// The log answers with the start offset recorded for the first leader epoch
+// larger than the given one. A server that was elected for that epoch recorded
+// the newest offset at election time, i.e. the last message before the epoch.
+// A server that learned the epoch from a replicated message (or rebuilt its
+// epoch history during compaction) recorded the offset of the first message of
+// that epoch instead, which is one past the last message the follower may
+// keep. Look at the message at that offset to tell the two apart.
+func (p *partition) lastOffsetForLeaderEpoch(epoch uint64) int64 {
+	offset := p.log.LastOffsetForLeaderEpoch(epoch)
+	if offset < 0 || epoch >= p.log.LastLeaderEpoch() {
+		// Nothing to inspect, or the requested epoch is the current one, in
+		// which case the log end offset was returned.
+		return offset
+	}
+	reader, err := p.log.NewReader(offset, true)
+	if err != nil {
+		return offset
+	}
+	ctx, cancel := context.WithTimeout(context.Background(), time.Second)
+	defer cancel()
+	_, msgOffset, _, msgEpoch, err := reader.ReadMessage(ctx, make([]byte, 28))
+	if err != nil || msgOffset != offset {
+		return offset
+	}
+	if msgEpoch > epoch {
+		return offset - 1
+	}
+	return offset
 }
 
 // handleReplicationRequest is a NATS handler that's invoked when the leader
